@@ -60,6 +60,12 @@ def f_pool(tier):
         ("Stack", "k", (("B", "mul", ti, x), tj)),
         ("Cat", "i", (ti, tik), "i"),
         ("Cat", "l", (tij, tij), "j"),
+        ("G", 1, (("i", 2, ()), ("u", "real", ()), ("v", "real", ()), ("w2", "real", ()))),
+        ("G", 2, (("u", "real", ()), ("v", "real", (2,)))),
+        # a Gaussian inside a lazy sum whose input order differs from the Gaussian's own
+        ("B", "add", ("B", "add", ("B", "mul", N(2.0), V("w2", "real")), V("u", "real")), ("G", 3, (("u", "real", ()), ("v", "real", ()), ("w2", "real", ())))),
+        ("D", "u", N(2.5), T("i", lid=75)),
+        ("D", "u", T("i", lid=76), N(0.5)),
         T(("i", "k", "h"), lid=73, sizes={"h": 2}),  # three inputs of one size: chains a->b, b->c with c kept
         ("B", "mul", T(("i", "k", "h"), lid=74, sizes={"h": 2}), x),
         ("Cat", "p", (T(("p",), lid=68, sizes={"p": 5}), T(("p",), lid=69, sizes={"p": 4})), "p"),
@@ -84,8 +90,15 @@ def maps_for(f, tier):
     names = list(t.inputs)
     menus = {n: gen.subst_values(n, t.inputs[n], tier, siblings=t.inputs) for n in names}
     # renamings first: chains / cycles of renamings among the term's own inputs are the sharpest cases
+    def prio(n, v):
+        if v[0] == "V":
+            return 0
+        if v[0] == "B" and any(("'%s'" % o) in repr(v) for o in names if o != n):
+            return 1  # an expression mentioning a sibling input of f
+        return 2
+
     for n in names:
-        menus[n] = [v for v in menus[n] if v[0] == "V"] + [v for v in menus[n] if v[0] != "V"]
+        menus[n] = sorted(menus[n], key=lambda v, n=n: prio(n, v))  # stable: keeps the menu order inside a class
     out = []
     for n in names:
         for v in menus[n]:
@@ -219,6 +232,14 @@ def _viol(e, seed, key, label, k2, msg, kind):
     f["mode"] = label
     f["what"] = k2.split(":", 1)[1]
     f["kind"] = kind
+    keys = {k for k, _ in e[2]}
+    subs_terms = lang.subterms(e[1])
+    f["into_gaussian"] = any(s[0] == "G" for s in subs_terms)
+    # an affine (expression) value that mentions a name which the same substitution also binds
+    mentioned = {x[1] for _, v in e[2] if v[0] in ("B", "U") for x in lang.subterms(v) if x[0] == "V" and x[1] in keys}
+    f["expression_value_mentions_substituted_key"] = bool(mentioned)
+    # what the mentioned keys are themselves bound to (B = another expression, T/N = a constant, V = a renaming)
+    f["mentioned_key_bound_to"] = sorted({v[0] for k, v in e[2] if k in mentioned})
     return core.violation(
         key,
         "S:" + lang.head(e[1]),
